@@ -62,7 +62,8 @@ def required_cells(tier):
     return {"bath:rotated-degenerate": 20, "bath_invariant": 200,
             "method:tempo": 3, "method:pt": 3, "method:meanfield": 2,
             "meanfield:two-systems": 2, "pt:reimported": 2,
-            "cov:degenerate": 3, "cov:nearly-diagonal:pt": 2,
+            "cov:degenerate": 3, "guessed-parameters": 4,
+            "cov:nearly-diagonal:pt": 2,
             "cov:nearly-diagonal:tempo": 2}
 
 
@@ -191,6 +192,7 @@ def run_cov(case):
     oper_r = rot(oper)
     oper_r = (oper_r + oper_r.conj().T) / 2
     fields = None
+    pending = []
     extra_sys, cells_extra = [], []
     if method in ("tempo", "pt"):
         h = gen.rand_herm(rng, d, 0.7)
@@ -211,6 +213,35 @@ def run_cov(case):
         free = np.array(oqupy.compute_dynamics(
             s_a, rho0, dt=dt, num_steps=nsteps, start_time=start,
             progress_type="silent").states)
+        if method == "tempo" and i % 2 == 0:
+            # the computation parameters the library proposes by itself
+            # (tempo_compute(parameters=None)) are part of the physics too:
+            # they must not depend on the basis either
+            import warnings
+            with warnings.catch_warnings():
+                warnings.simplefilter("ignore")
+                # the dissipator sets the fastest scale in half of the cases
+                gfac = [1.0, 40.0][(i // 2) % 2]
+                g_a = oqupy.System(h, [gfac * g[0]], lop)
+                g_b = oqupy.System(rot(h), [gfac * g[0]], [rot(lop[0])])
+                pa_ = oqupy.guess_tempo_parameters(
+                    bath=oqupy.Bath(oper, corr), start_time=start,
+                    end_time=start + 2.0, system=g_a, tolerance=1e-2)
+                pb_ = oqupy.guess_tempo_parameters(
+                    bath=oqupy.Bath(oper_r, corr), start_time=start,
+                    end_time=start + 2.0, system=g_b, tolerance=1e-2)
+            cells_extra.append("guessed-parameters")
+            if abs(pa_.dt - pb_.dt) > 1e-9 * pa_.dt or \
+                    pa_.dkmax != pb_.dkmax or \
+                    abs(pa_.epsrel - pb_.epsrel) > 1e-9 * pa_.epsrel:
+                pending.append({
+                    "what": f"guess_tempo_parameters proposes (dt, dkmax, "
+                            f"epsrel) = ({pa_.dt}, {pa_.dkmax}, {pa_.epsrel})"
+                            f" for the problem and ({pb_.dt}, {pb_.dkmax}, "
+                            f"{pb_.epsrel}) for the same problem written in "
+                            f"the basis V ({ukind})",
+                    "mechanism": "guessed-parameters-basis-dependent",
+                    "detail": {}})
     else:
         # one or two systems; the second has its own dimension, coupling
         # operator (not diagonal in a common basis) and its own rotation
@@ -258,7 +289,7 @@ def run_cov(case):
             extra_sys.append((k, xa, xb))
         if two:
             cells_extra.append("meanfield:two-systems")
-    violations = list(rec.violations)
+    violations = list(rec.violations) + pending
     bound = C_BOUND * epsrel * scale * (lib.pt_growth(nsteps)
                                         if method == "pt" else 1.0)
     err = float("nan")
